@@ -1010,8 +1010,12 @@ def matrix_inverse_pth_root_eigh(
   if padding_start is not None:
     e *= jnp.flip(ix)
   mm = functools.partial(jnp.matmul, precision=precision)
-  inv_e = jnp.where(e == 0.0, 0.0,
-                    jnp.power(jnp.maximum(e, ridge_epsilon), alpha))
+  # With a zero ridge, eigenvalues that are not strictly positive (singular
+  # statistics) have no inverse root; zero them like padding instead of
+  # returning inf with a small reported error.
+  floored_e = jnp.maximum(e, ridge_epsilon)
+  inv_e = jnp.where((e == 0.0) | (floored_e <= 0.0), 0.0,
+                    jnp.power(floored_e, alpha))
   val = mm(mm(u, jnp.diag(inv_e)), u.T)
   root = u * jnp.sqrt(inv_e)
   val = mm(root, root.T)
